@@ -385,10 +385,13 @@ class TimeEvolutionAlgorithm(Algorithm):
         self.force_prepare_evolve = False
         if self.resume_data:
             self.evolved_time = self.resume_data['evolved_time']
+            if 'trunc_err' in self.resume_data:
+                self.trunc_err = self.resume_data['trunc_err']
 
     def get_resume_data(self, sequential_simulations=False):
         data = super().get_resume_data(sequential_simulations)
         data['evolved_time'] = self.evolved_time
+        data['trunc_err'] = self.trunc_err
         return data
 
     def run(self):
